@@ -45,6 +45,10 @@ func (d *dstChecker) check(par *ssa.Parameter, depth int) []dstUse {
 	defer func() { d.busy[par] = false }()
 	var bad []dstUse
 	seen := map[ssa.Value]bool{}
+	// values that denote dst extended to its full capacity (dst[:cap(dst)]):
+	// scratch whose length is the capacity and whose prefix is what a filling
+	// routine wrote
+	scratch := map[ssa.Value]bool{}
 	var visit func(v ssa.Value)
 	visit = func(v ssa.Value) {
 		if seen[v] {
@@ -68,8 +72,20 @@ func (d *dstChecker) check(par *ssa.Parameter, depth int) []dstUse {
 				if depth > 0 && x.Low == nil {
 					continue // resize helper: buf[:n] after a capacity check, fully overwritten by the caller
 				}
+				if x.Low == nil && (isCapOf(x.High, v) || scratch[v]) {
+					// dst[:cap(dst)]: the whole backing array as scratch for a routine
+					// that fills it; the extended slice obeys the same discipline
+					// (its content is never read before it is overwritten), and
+					// scratch[:n] is the prefix that was filled
+					scratch[x] = true
+					visit(x)
+					continue
+				}
 				bad = append(bad, dstUse{x.Pos(), "re-sliced other than dst[:0] (the previous length/content becomes visible)"})
 			case *ssa.Phi:
+				if scratch[v] {
+					scratch[x] = true
+				}
 				visit(x)
 			case *ssa.Return:
 			case *ssa.Store:
@@ -100,6 +116,9 @@ func (d *dstChecker) check(par *ssa.Parameter, depth int) []dstUse {
 					case "cap":
 						continue
 					case "len":
+						if scratch[v] {
+							continue // the length of dst[:cap(dst)] is its capacity
+						}
 						bad = append(bad, dstUse{x.Pos(), "len(dst) observed"})
 					case "append":
 						if len(cc.Args) > 0 && cc.Args[0] == v {
@@ -218,4 +237,14 @@ func runDstRule(c *Ctx, rule string, pkgPrefixes []string, exempt map[string]str
 		}
 	}
 	c.Stats[rule+".buffer_parameters"] = n
+}
+
+// isCapOf: h is cap(v).
+func isCapOf(h, v ssa.Value) bool {
+	call, ok := h.(*ssa.Call)
+	if !ok {
+		return false
+	}
+	b, ok := call.Call.Value.(*ssa.Builtin)
+	return ok && b.Name() == "cap" && len(call.Call.Args) == 1 && call.Call.Args[0] == v
 }
